@@ -9,6 +9,31 @@ HARNESS = os.path.join(VERIF, "harness")
 WORK = os.path.join(VERIF, "work")          # scratch (git-ignored), recreated per run
 EVID = os.path.join(VERIF, "evidence")
 REPLAY = os.path.join(VERIF, "replay")
+# Development aid (never set by a registered command): VERIF_REPO=<scratch worktree of /repo> runs a check against that tree
+# instead of /repo, with its own copy of the harness, scratch, evidence and replay directories under work/alt_<hash>/, so a
+# seeded change can be tried without touching /repo and several trees can be checked at the same time.
+REPO = "/repo"
+_alt = os.environ.get("VERIF_REPO")
+if _alt and os.path.realpath(_alt) != "/repo":
+    REPO = os.path.realpath(_alt)
+    WORK = os.path.join(VERIF, "work", "alt_" + hashlib.sha1(REPO.encode()).hexdigest()[:8])
+    EVID = os.path.join(WORK, "evidence")
+    REPLAY = os.path.join(WORK, "replay")
+    _src = HARNESS
+    HARNESS = os.path.join(WORK, "harness")
+
+
+def _prepare_alt_harness():
+    os.makedirs(os.path.join(HARNESS, ".cargo"), exist_ok=True)
+    subprocess.run(["rsync", "-a", "--delete", os.path.join(_src, "src") + "/", os.path.join(HARNESS, "src") + "/"], check=True)
+    for f in ("Cargo.lock", ".cargo/config.toml"):
+        shutil.copy(os.path.join(_src, f), os.path.join(HARNESS, f))
+    t = open(os.path.join(_src, "Cargo.toml")).read().replace('"/repo/', '"%s/' % REPO)
+    cur = os.path.join(HARNESS, "Cargo.toml")
+    if not os.path.exists(cur) or open(cur).read() != t:
+        open(cur, "w").write(t)
+
+
 JAR = "/opt/veriftools/tla/tla2tools.jar:/opt/veriftools/tla/CommunityModules-deps.jar"
 TOOLCHAIN = "stable-x86_64-unknown-linux-gnu"
 NCPU = os.cpu_count() or 4
@@ -39,6 +64,8 @@ def build_harness(profile="debug"):
     if profile in _built:
         return _built[profile]
     t0 = time.time()
+    if REPO != "/repo":
+        _prepare_alt_harness()
     cmd = ["cargo", "build", "--offline", "-q", "--bin", "cv"]
     if profile == "release":
         cmd.append("--release")
